@@ -670,7 +670,7 @@ theorem block_ok (C : Crypto) (hC : HashWF C) (bs : Array Bytes) (m : Nat) (c : 
   have hsz := size_extract bs m hr.le
   have hR := (repr_extract C bs m hr.le hr.small c d held).mpr hr
   have hi' : i < (bs.extract 0 m).size := by rw [hsz]; exact hi
-  have hshape := apply_block_shape C (bs.extract 0 m) c d held hR i hi'
+  have hshape := apply_block_shape C hC (bs.extract 0 m) c d held hR i hi'
   rw [honestBlock_extract C bs m c d held hr i hi] at hshape
   obtain ⟨_, hin⟩ := missingNodes_spec C bs m c.tree d.tree hr.closed.sparse (by have := hr.small.1; have := hr.le; omega) i hi
   have hk64 := k_lt_64 i _ m (by have := hr.small.1; have := hr.le; omega) hin
@@ -1024,16 +1024,42 @@ theorem init_replica (C : Crypto) (pk : Bytes) (hpk : pk.length = 32) :
     · rw [hd1bf]; rfl
     · intro i hne; exfalso; apply hne; rw [hbf]
 
-/-- **first contact keeps the ghost invariant and establishes the replica invariant** -/
-theorem rp_first (C : Crypto) (hC : HashWF C) (hT : TreeWF C) (bs : Array Bytes) (hs : bs.size < 2 ^ 62 ∧ psum bs bs.size < 2 ^ 64)
+/-- a replica that knows nothing is a replica of the first 0 blocks -/
+theorem reprAt0_of_fresh (C : Crypto) (bs bs' : Array Bytes) (hs : bs.size < 2 ^ 64 ∧ psum bs bs.size < 2 ^ 64) (c : Core) (d : Disk)
+    (h : FreshR C bs' c d) : RepRAt C bs 0 c d (fun _ => false) := by
+  have hno : ∀ i n, c.tree.node? d.tree i = some n → False := by
+    intro i n hn
+    obtain ⟨dd, o, _, _, hb⟩ := h.empty.sound i n hn
+    have := pow_pos' dd
+    have : 1 * 2 ^ dd ≤ (o + 1) * 2 ^ dd := Nat.mul_le_mul_right _ (by omega)
+    omega
+  refine ⟨Nat.zero_le _, ⟨⟨h.empty.length, fun i n hn => (hno i n hn).elim, (fun p hp => by simp [RefProof.rootsStack_zero] at hp)⟩,
+    fun dd o hst _ => (hno _ _ hst).elim⟩, (by rw [h.roots]; simp [rootsAt, RefProof.rootsStack_zero]), (by rw [h.bytes0]; rfl), h.mapwf, h.aligned, h.bits,
+    (fun i hi => by cases hi), (fun i hi => by cases hi), (fun i hi => by cases hi), h.contig, hs⟩
+
+/-- … and the other way round -/
+theorem fresh_of_reprAt0 (C : Crypto) (bs bs' : Array Bytes) (hs' : bs'.size < 2 ^ 64 ∧ psum bs' bs'.size < 2 ^ 64) (c : Core) (d : Disk)
+    (held : Nat → Bool) (h : RepRAt C bs 0 c d held) : FreshR C bs' c d := by
+  have hno : ∀ i n, c.tree.node? d.tree i = some n → False := by
+    intro i n hn
+    obtain ⟨dd, o, _, _, hb⟩ := h.closed.sparse.sound i n hn
+    have := pow_pos' dd
+    have : 1 * 2 ^ dd ≤ (o + 1) * 2 ^ dd := Nat.mul_le_mul_right _ (by omega)
+    omega
+  have hheld : ∀ i, held i = false := by
+    intro i
+    cases hh : held i with
+    | false => rfl
+    | true => have := h.heldLt i hh; omega
+  refine ⟨⟨h.closed.sparse.length, fun i n hn => (hno i n hn).elim, (fun p hp => by simp [RefProof.rootsStack_zero] at hp)⟩,
+    (by rw [h.roots]; simp [rootsAt, RefProof.rootsStack_zero]), (by rw [h.bytes]; rfl), h.mapwf, h.aligned, (fun i => by rw [h.bits, hheld]), h.contig, hs'⟩
+
+/-- **first contact is an exchange step** (from length 0) -/
+theorem first_ok (C : Crypto) (hC : HashWF C) (hT : TreeWF C) (bs : Array Bytes) (hs : bs.size < 2 ^ 62 ∧ psum bs bs.size < 2 ^ 64)
     (n : Nat) (h0 : 0 < n) (hn : n ≤ bs.size) (c : Core) (d : Disk) (h : FreshR C (bs.extract 0 n) c d)
-    (hper : ∃ hf es, PersistR C c d hf es ∧ Extra C bs c d hf es) (sig : Bytes) (hsl : sig.length = 64)
+    (sig : Bytes) (hsl : sig.length = 64)
     (hver : C.verify c.publicKey (signableAt C bs n c.tree.fork) sig = true) :
-    (c.verifyAndApply C d (honestFirst C bs c.tree.fork n sig)).result = .ok true
-      ∧ RP C bs n (c.verifyAndApply C d (honestFirst C bs c.tree.fork n sig)).core
-          (d.applyAll (c.verifyAndApply C d (honestFirst C bs c.tree.fork n sig)).journal) (fun _ => false)
-      ∧ (c.verifyAndApply C d (honestFirst C bs c.tree.fork n sig)).core.publicKey = c.publicKey
-      ∧ (c.verifyAndApply C d (honestFirst C bs c.tree.fork n sig)).core.tree.fork = c.tree.fork := by
+    ∃ c1 e j0, StepOK C bs 0 n c c1 d (fun _ => false) (fun _ => false) (c.verifyAndApply C d (honestFirst C bs c.tree.fork n sig)) e j0 := by
   have hs64 : bs.size < 2 ^ 64 ∧ psum bs bs.size < 2 ^ 64 := ⟨by omega, hs.2⟩
   have hN : n < 2 ^ 64 := by omega
   have hsz := size_extract bs n hn
@@ -1060,67 +1086,69 @@ theorem rp_first (C : Crypto) (hC : HashWF C) (hT : TreeWF C) (bs : Array Bytes)
   have htree : (d.applyAll (Oplog.appendEntry c.oplog e).2).tree = d.tree :=
     LiveRefine.tree_of_applyAll _ _ (fun op hop => by rw [hj1 op hop]; decide)
   have hsne : sig.isEmpty = false := by cases sig with | nil => simp at hsl | cons a l => rfl
-  obtain ⟨hf, es, hp, hx⟩ := hper
-  have hp1 : PersistR C (growCore c cs) (d.applyAll ([] ++ (Oplog.appendEntry c.oplog e).2)) hf (es ++ [e]) := by
-    refine persist_entry C c _ d hf es e _ hp ?_ (fun op hop => by cases hop) hc1o ?_ ?_ ?_ ?_ ?_ ?_ ?_ ?_
-    · rw [he']
-      apply entry_ok
-      · apply refNodes_wf C hC bs hs.1 hs.2
-        · intro x hx
-          rw [hnodes, rootsAt] at hx
-          obtain ⟨p, hp', rfl⟩ := List.mem_map.mp hx
-          exact ⟨p.1, p.2, rfl, Nat.le_trans (rootsStack_bound n p (List.mem_reverse.mp hp')) hn⟩
+  have hok : StepOK C bs 0 n c (growCore c cs) d (fun _ => false) (fun _ => false) (c.verifyAndApply C d (honestUpgrade C (bs.extract 0 n) c.tree.fork sig)) e [] := StepOK.mk
+    (by rw [hshape]; exact ⟨rfl, rfl⟩) hrep1 (fun hf es hp => by
+      refine persist_entry C c _ d hf es e _ hp ?_ (fun op hop => by cases hop) hc1o ?_ ?_ ?_ ?_ ?_ ?_ ?_ ?_
+      · rw [he']
+        apply entry_ok
+        · apply refNodes_wf C hC bs hs.1 hs.2
+          · intro x hx
+            rw [hnodes, rootsAt] at hx
+            obtain ⟨p, hp', rfl⟩ := List.mem_map.mp hx
+            exact ⟨p.1, p.2, rfl, Nat.le_trans (rootsStack_bound n p (List.mem_reverse.mp hp')) hn⟩
+          · rw [hnodes, rootsAt, List.length_map, List.length_reverse]; omega
         · rw [hnodes, rootsAt, List.length_map, List.length_reverse]; omega
-      · rw [hnodes, rootsAt, List.length_map, List.length_reverse]; omega
-      · intro u hu
-        cases hu
-        refine ⟨?_, ?_, ?_, hsl⟩
-        · show U64 cs.fork
-          rw [hfork, ← hp.hdrFork]; exact hp.shape.fork
-        · show U64 cs.ancestors
-          rw [hanc, h.empty.length]; unfold U64; omega
-        · show U64 cs.length
-          rw [hlen]; exact hN
-      · intro b hb; cases hb
-    · intro ol b hb1 hb2
-      refine ⟨b, ?_, hb1, hb2⟩
-      have := replay_grow C bs d c ol b cs n sig hN hroots hlen hbytes hsig hsl hupg hanc hhash hfork
-        (by rw [h.roots]; intro x hx; cases hx)
-        (fun p hp' => by rw [← htree]; exact hrep1.closed.sparse.roots p hp')
-      rw [he] at this
-      exact this
-    · exact hp.dirty
-    · rw [hhd]
-      exact hdrShape_set c.header hp.shape _ _ _ _ (by rw [rootsHash, hT]) (by omega) hN hp.shape.contig
-    · rw [hhd]; exact hlen.symm
-    · rw [hhd]; show c.header.tree.fork = cs.fork; rw [hfork]; exact hp.hdrFork
-    · rw [hhd]; show cs.signature = _; simp only [hsne, Bool.false_eq_true, ite_false]; exact hsig
-    · rw [hhd]; exact Or.inr hsl
-    · rw [hhd]; exact hp.keys
-  simp only [List.nil_append] at hp1
-  have hbf1 : (d.applyAll (Oplog.appendEntry c.oplog e).2).bitfield = d.bitfield := by
-    have := Journal.applyAll_other d (Oplog.appendEntry c.oplog e).2 .bitfield (fun op hop => by rw [hj1 op hop]; decide)
-    simpa [Disk.get] using this
-  have hx1 : Extra C bs (growCore c cs) (d.applyAll (Oplog.appendEntry c.oplog e).2) hf (es ++ [e]) :=
-    extra_entry C bs c (growCore c cs) d _ hf es e hx htree hbf1 (fun u hu => by rw [he'] at hu; cases hu) (fun j hj => Or.inl hj)
-      (by rw [he']; rfl)
-      (fun x hxm => by
-        rw [he', hnodes, rootsAt] at hxm
-        obtain ⟨p, _, rfl⟩ := List.mem_map.mp hxm
-        exact ⟨p.1, p.2, rfl⟩)
-  refine ⟨by rw [hshape], ?_, ?_, ?_⟩
-  · rw [hshape]
-    simp only []
-    rw [Journal.applyAll_append]
-    exact ⟨maybeFlush_reprAt C bs n _ _ _ hrep1, persist_maybeFlush C bs n (growCore c cs) _ (fun _ => false) hf (es ++ [e]) hrep1 hp1 hx1, hs.1⟩
-  · rw [hshape]
-    simp only []
-    rw [LiveRefine.maybeFlush_eq]
-    split <;> rfl
-  · rw [hshape]
-    simp only []
-    rw [LiveRefine.maybeFlush_eq]
-    split <;> exact hfork
+        · intro u hu
+          cases hu
+          refine ⟨?_, ?_, ?_, hsl⟩
+          · show U64 cs.fork
+            rw [hfork, ← hp.hdrFork]; exact hp.shape.fork
+          · show U64 cs.ancestors
+            rw [hanc, h.empty.length]; unfold U64; omega
+          · show U64 cs.length
+            rw [hlen]; exact hN
+        · intro b hb; cases hb
+      · intro ol b hb1 hb2
+        refine ⟨b, ?_, hb1, hb2⟩
+        have := replay_grow C bs d c ol b cs n sig hN hroots hlen hbytes hsig hsl hupg hanc hhash hfork
+          (by rw [h.roots]; intro x hx; cases hx)
+          (fun p hp' => by rw [← htree]; exact hrep1.closed.sparse.roots p hp')
+        rw [he] at this
+        exact this
+      · exact hp.dirty
+      · rw [hhd]
+        exact hdrShape_set c.header hp.shape _ _ _ _ (by rw [rootsHash, hT]) (by omega) hN hp.shape.contig
+      · rw [hhd]; exact hlen.symm
+      · rw [hhd]; show c.header.tree.fork = cs.fork; rw [hfork]; exact hp.hdrFork
+      · rw [hhd]; show cs.signature = _; simp only [hsne, Bool.false_eq_true, ite_false]; exact hsig
+      · rw [hhd]; exact Or.inr hsl
+      · rw [hhd]; exact hp.keys)
+    (fun op hop => by cases hop)
+    (fun u hu => by rw [he'] at hu; cases hu)
+    (fun j hj => Or.inl hj)
+    (by rw [he']; rfl)
+    (fun x hxm => by
+      rw [he', hnodes, rootsAt] at hxm
+      obtain ⟨p, _, rfl⟩ := List.mem_map.mp hxm
+      exact ⟨p.1, p.2, rfl⟩)
+    (by rw [hshape])
+    ⟨rfl, hfork⟩
+    (fun k' => by rw [List.take_nil]; exact reprAt0_of_fresh C bs _ hs64 c d h)
+  exact ⟨_, _, _, hok⟩
+
+/-- **first contact keeps the ghost invariant and establishes the replica invariant** -/
+theorem rp_first (C : Crypto) (hC : HashWF C) (hT : TreeWF C) (bs : Array Bytes) (hs : bs.size < 2 ^ 62 ∧ psum bs bs.size < 2 ^ 64)
+    (n : Nat) (h0 : 0 < n) (hn : n ≤ bs.size) (c : Core) (d : Disk) (h : FreshR C (bs.extract 0 n) c d)
+    (hper : ∃ hf es, PersistR C c d hf es ∧ Extra C bs c d hf es) (sig : Bytes) (hsl : sig.length = 64)
+    (hver : C.verify c.publicKey (signableAt C bs n c.tree.fork) sig = true) :
+    (c.verifyAndApply C d (honestFirst C bs c.tree.fork n sig)).result = .ok true
+      ∧ RP C bs n (c.verifyAndApply C d (honestFirst C bs c.tree.fork n sig)).core
+          (d.applyAll (c.verifyAndApply C d (honestFirst C bs c.tree.fork n sig)).journal) (fun _ => false)
+      ∧ (c.verifyAndApply C d (honestFirst C bs c.tree.fork n sig)).core.publicKey = c.publicKey
+      ∧ (c.verifyAndApply C d (honestFirst C bs c.tree.fork n sig)).core.tree.fork = c.tree.fork := by
+  have hs64 : bs.size < 2 ^ 64 ∧ psum bs bs.size < 2 ^ 64 := ⟨by omega, hs.2⟩
+  obtain ⟨c1, e, j0, hok⟩ := first_ok C hC hT bs hs n h0 hn c d h sig hsl hver
+  exact rp_of_ok C bs 0 n c c1 d _ _ _ e j0 ⟨reprAt0_of_fresh C bs _ hs64 c d h, hper, hs.1⟩ hok
 
 /-! ### exchanges and reopens, in any order -/
 
